@@ -21,10 +21,31 @@ INLINE_SMALL = (
 TREE_EVENTS = (EXEC, "scpi::tree::Node::run_tokens", "scpi::tree::Node::run")
 
 
+_STREAM_HELPER = {}
+
+
+def takes_token_stream(r):
+    """a non-trait function of crate scpi (wherever it lives: util, parameters, ...) that receives the dispatcher's token
+    stream: a helper of the dispatcher, analysed in place like the helpers inside scpi::tree"""
+    if r in _STREAM_HELPER:
+        return _STREAM_HELPER[r]
+    ok = False
+    if r.startswith("scpi::") and not r.startswith("scpi::tree::command::"):
+        for b in prog().unit("scpi").bodies:
+            if b.npath == r and b.kind in ("Fn", "AssocFn") and not b.impl_trait and not b.in_trait:
+                sig = str(b.j.get("sig") or "")
+                ok = "Peekable<" in sig and "Tokenizer" in sig and "Parameters<" not in sig.split("->")[0].replace("Peekable<", "")
+                break
+    _STREAM_HELPER[r] = ok
+    return ok
+
+
 def _inline(n, r):
     if r in INLINE_SMALL or n in INLINE_SMALL or "Token" in r and r.endswith("PartialEq>::eq"):
         return True
-    return r.startswith("scpi::tree::") and r not in TREE_EVENTS and not r.startswith(("scpi::tree::prelude", "scpi::tree::command::"))
+    if r.startswith("scpi::tree::") and r not in TREE_EVENTS and not r.startswith(("scpi::tree::prelude", "scpi::tree::command::")):
+        return True
+    return r not in TREE_EVENTS and takes_token_stream(r)
 
 
 _CACHE = {}
@@ -286,7 +307,7 @@ def exec_children_named(names, mnemonic, follow="END"):
         base = _inline
 
         def inl(n, r):
-            return base(n, r) or r.startswith(("scpi::parser::tokenizer::util::", "scpi::parser::tokenizer::token::Token::"))
+            return base(n, r) or r.startswith(("scpi::parser::tokenizer::util::", "scpi::parser::tokenizer::token::"))
         e = engine(inline=inl)
         e.loop_limit = 64
         _CACHE[key] = e
